@@ -359,6 +359,14 @@ impl Engine for StoreEngine {
         ]
     }
 
+    fn level(&self) -> &'static str {
+        if self.prop == "C11" {
+            "fault_enumeration"
+        } else {
+            "exploration"
+        }
+    }
+
     fn runs(&self, thorough: bool) -> u64 {
         match (self.prop, thorough) {
             ("C09", false) => 12_000,
